@@ -354,15 +354,31 @@ fn run_schedule(tpl: &Template, case: &Case, prefix: &[usize]) -> RunOut {
             }
         }
         while pump(&mut evt_rx, &fwd_tx, &mut monitor, Duration::from_millis(2)).await.is_some() {}
-        // let the subscriber's forwarding settle, then read its stream
-        tokio::time::sleep(Duration::from_millis(40)).await;
+        // read the subscriber's stream until it has the last change produced, ended with an error, or
+        // closed; a stream that is still live but silent is given 3 s before it is judged behind
+        let total_changes = case.pre + case.n + 1;
         let mut rx = sub_rx_out.take().unwrap();
         let mut stream: Vec<(QueryEventMeta, Bytes)> = vec![];
         let mut closed = false;
+        let settle = Instant::now();
         loop {
             match rx.try_recv() {
                 Ok((b, m)) => stream.push((m, b)),
-                Err(tokio::sync::mpsc::error::TryRecvError::Empty) => break,
+                Err(tokio::sync::mpsc::error::TryRecvError::Empty) => {
+                    let done = stream.iter().any(|(m, _)| matches!(m, QueryEventMeta::Error) || matches!(m, QueryEventMeta::Change(c) if c.0 >= total_changes) || matches!(m, QueryEventMeta::EndOfQuery(Some(c)) if c.0 >= total_changes));
+                    if done {
+                        // whatever trails the last expected event
+                        tokio::time::sleep(Duration::from_millis(10)).await;
+                        while let Ok((b, m)) = rx.try_recv() {
+                            stream.push((m, b));
+                        }
+                        break;
+                    }
+                    if settle.elapsed() > Duration::from_secs(3) {
+                        break;
+                    }
+                    tokio::time::sleep(Duration::from_millis(1)).await;
+                }
                 Err(tokio::sync::mpsc::error::TryRecvError::Disconnected) => {
                     closed = true;
                     break;
